@@ -313,7 +313,9 @@ PROPS["C13"] = dict(
     thorough=dict(workers=16, cases=6000, min_nontrivial=1000, budget_s=3000),
     rule="Histories of 2-4 rounds over one GMGPolar object: each round applies a (re)drawn option set through the setters "
          "(extrapolation 0/1/2/3 with the combined mode weighted up, FMG on/off with cycle and iteration count, cycle "
-         "type, smoothing steps, level cap, maxIterations, norm, tolerances, grid size, strategy), calls setup() when a "
+         "type, smoothing steps, level cap, maxIterations, norm, tolerances, grid size, strategy; and with smaller "
+         "probabilities the interior boundary mode, thread count and reduction factor, R0, anisotropy, divideBy2, the cache "
+         "options, or a different shipped problem selected by a second setParameters() call), calls setup() when a "
          "structural option changed (or at random otherwise) and solves once or twice (second solve without setup); 1 in 4 "
          "histories is the convergence_order pattern (only divideBy2 grows). After every solve a fresh object with the "
          "cumulative options is set up and solved; solution must be bit-identical (1 or 2 OpenMP threads), iteration count, "
